@@ -1,5 +1,6 @@
 """C08 — rate converter position and consumption (DESIGN.md §6 C08)."""
 from vlib.vunit import run_unit, build_search
+from vlib.kani import run_kani
 from props.C04 import common
 
 
@@ -26,6 +27,14 @@ def run(ctx):
         sm[l] = ['Linear::interpolate']
     sm['MulHz::is_exhausted'] = ['MulHz::next']
     run_unit(ctx, 'converter', search_crate='signal', search_map=sm)
+    # integer sample formats (the Verus unit is about f64 frames): Linear at x == 0 reproduces the left frame EXACTLY for every
+    # u8 / i16 / i32 / u32 value, the blend at x = k/4 lies between the two frames (full domain, loop-free: complete for
+    # those x), feed / reset / Floor state functions on 2-channel i32 frames.  Closeness to the straight line within one LSB at
+    # x != 0 does not finish in CBMC and is left to the paired native search (witnesses only).  i64 / u64 are not covered.
+    ctx.add_trusted('Kani 0.68 / CBMC 6.11 bit-precise integer / f64 semantics for the c08_linear_* harnesses (kani/sinc crate)')
+    ctx.add_assumption('NOT covered: Linear on i64 / u64 frames (more than 53 significant bits do not survive the blend through f64: read as '
+                       '"up to float rounding"); one-LSB closeness of integer blends at x != 0 is searched natively, not proved')
+    run_kani(ctx, 'sinc', harness=['c08_'], rustflags='--cfg rustaudio_dasp_verif', harness_timeout='10m')
 
 
 def prepare_replay(rec):
